@@ -1009,9 +1009,13 @@ class HistogramBase(abc.ABC):
             # The square is taken of the python number, before anything is changed:
             # a narrow numpy integer would wrap around, a huge float raises here.
             scalar2 = (other.item() if isinstance(other, np.generic) else other) ** 2
-            self.frequencies = self.frequencies * scalar
-            self.errors2 = self.errors2 * scalar2
-            self._missed = self._missed * scalar
+            # (all three computed before the first assignment: a refused product changes nothing)
+            new_frequencies = self.frequencies * scalar
+            new_errors2 = self.errors2 * scalar2
+            new_missed = self._missed * scalar
+            self.frequencies = new_frequencies
+            self.errors2 = new_errors2
+            self._missed = new_missed
             if hasattr(self, "_stats"):
                 self._stats = self._stats * scalar
         elif config.free_arithmetics:  # Treat other as array-like
